@@ -8708,7 +8708,15 @@ impl<'a> Parser<'a> {
             }
         }
 
-        match self.maybe_parse(|parser| parser.parse_statement())? {
+        // The options above are only valid in front of a statement, not of a table name.
+        let statement = if analyze || verbose || query_plan || format.is_some() || options.is_some()
+        {
+            Some(self.parse_statement()?)
+        } else {
+            self.maybe_parse(|parser| parser.parse_statement())?
+        };
+
+        match statement {
             Some(Statement::Explain { .. }) | Some(Statement::ExplainTable { .. }) => Err(
                 ParserError::ParserError("Explain must be root of the plan".to_string()),
             ),
